@@ -20,6 +20,8 @@ import (
 	"reflect"
 	"regexp"
 	"runtime"
+	"runtime/debug"
+	"runtime/pprof"
 	"sort"
 	"strings"
 	"sync"
@@ -616,14 +618,14 @@ type found struct {
 
 type stats struct {
 	evals, compared, refused, failed [nPaths]int
-	refusedOut, refusedIn           int
-	objects                         map[string]int
-	nontrivial                      int
-	anyCompared                     int
-	outOfRangeObjects               int
-	verdicts                        int
-	verdictAccepted                 int
-	nilEmpty                        map[string]int
+	refusedOut, refusedIn            int
+	objects                          map[string]int
+	nontrivial                       int
+	anyCompared                      int
+	outOfRangeObjects                int
+	verdicts                         int
+	verdictAccepted                  int
+	nilEmpty                         map[string]int
 }
 
 func newStats() *stats { return &stats{objects: map[string]int{}, nilEmpty: map[string]int{}} }
@@ -685,6 +687,9 @@ type meta struct {
 	verify bool
 	trace  map[string]string // when non-nil, per-path outcomes are written here
 	names  map[int]string    // field-name overrides (balance)
+	// noDigest skips the comparison of the signed byte strings (vertex product only: they are a pure function
+	// of the fields that are compared, and they are compared for every object of the other phases)
+	noDigest bool
 }
 
 func (m *meta) fname(f int) string {
@@ -858,7 +863,7 @@ func (m *meta) judge(st *stats, p int, ds []diff, oor bool, digests [][2][]byte,
 			}
 			outcome = "VERDICT CHANGED"
 			report(m.seq, common.Violation{
-				Predicate: pred, Key: fmt.Sprintf("%s/%s/verify", pred, path),
+				Predicate: pred, Key: verifyKey(pred, path),
 				What: fmt.Sprintf("%s: verification verdict changed from [%s] to [%s] for a %s with %s",
 					path, before, after, m.kind, m.describeLine()),
 				Witness: m.witness(path, map[string]any{"before": before, "after": after}),
@@ -871,6 +876,14 @@ func (m *meta) judge(st *stats, p int, ds []diff, oor bool, digests [][2][]byte,
 	if m.trace != nil {
 		m.trace[path] = outcome
 	}
+}
+
+// verifyKey: C19.verify-changed/<path>, or C19.time-out-of-range/<path>/verify for undefined timestamps.
+func verifyKey(pred, path string) string {
+	if pred == "C19.verify-changed" {
+		return pred + "/" + path
+	}
+	return pred + "/" + path + "/verify"
 }
 
 type worker struct {
@@ -946,7 +959,10 @@ func (w *worker) evalTrx(t transaction.Transaction, m *meta) {
 func (w *worker) evalVertex(v accountant.Vertex, m *meta) {
 	st := w.st
 	oor := !inRange(v.CreatedAt) || !inRange(v.Transaction.CreatedAt)
-	msg0, dig0 := v.Transaction.GetMessage(), v.VerifDigestInput()
+	var msg0, dig0 []byte
+	if !m.noDigest {
+		msg0, dig0 = v.Transaction.GetMessage(), v.VerifDigestInput()
+	}
 	verdict0 := ""
 	v0 := func() string {
 		if verdict0 == "" {
@@ -972,7 +988,11 @@ func (w *worker) evalVertex(v accountant.Vertex, m *meta) {
 		compared++
 		var ds []diff
 		cmpVertex(&ds, &v, &out)
-		m.judge(st, p, ds, oor, [][2][]byte{{msg0, out.Transaction.GetMessage()}, {dig0, out.VerifDigestInput()}}, names,
+		var dgs [][2][]byte
+		if !m.noDigest {
+			dgs = [][2][]byte{{msg0, out.Transaction.GetMessage()}, {dig0, out.VerifDigestInput()}}
+		}
+		m.judge(st, p, ds, oor, dgs, names,
 			func() (string, string) { return v0(), vertexVerdict(w.ver, &out) })
 	}
 	w.finishObject(m, 2, compared, oor)
@@ -1079,13 +1099,25 @@ func main() {
 }
 
 func run() int {
+	// the live heap is tiny (the alphabets) while every round trip allocates: let the heap grow between collections
+	gcp := 800
+	if s := os.Getenv("VERIF_GCPERCENT"); s != "" {
+		fmt.Sscan(s, &gcp)
+	}
+	debug.SetGCPercent(gcp)
+	if f := os.Getenv("VERIF_CPUPROFILE"); f != "" {
+		if fh, err := os.Create(f); err == nil {
+			pprof.StartCPUProfile(fh)
+			defer pprof.StopCPUProfile()
+		}
+	}
 	rep := common.NewReport("C19", "exploration")
 	tier := common.Tier()
 	nw := runtime.GOMAXPROCS(0)
 	if nw > 16 {
 		nw = 16
 	}
-	deadline := common.Deadline(55*time.Second, 8*time.Minute)
+	deadline := common.Deadline(55*time.Second, 8*time.Minute+30*time.Second)
 	total := newStats()
 	var seqBase uint64
 
@@ -1140,10 +1172,11 @@ func run() int {
 			vtxFields = append(vtxFields, f)
 		}
 	} else {
-		// all seven vertex-level fields x one transaction field per encoding class
-		// (string, bytes, time, integer, nil-able signature); the other five transaction fields are covered
-		// by the complete 3^10 transaction product and stay nominal here.
-		vtxFields = []int{fSubject, fData, fTCreated, fCur, fRSig, fSigner, fVCreated, fVSig, fVHash, fLeft, fRight, fWeight}
+		// all seven vertex-level fields x seven transaction fields (one per encoding class: string, bytes, time,
+		// integer, hash, signature, nil-able signature); IssuerAddress, ReceiverAddress and SupplementaryCurrency
+		// share their class with a field that is in and are covered by the complete 3^10 transaction product;
+		// they stay nominal here. (Hash and both signatures are in, so no object of this product needs signing.)
+		vtxFields = []int{fSubject, fData, fTCreated, fCur, fTHash, fISig, fRSig, fSigner, fVCreated, fVSig, fVHash, fLeft, fRight, fWeight}
 	}
 	exhaustive := true
 	productInfo := map[string]any{}
@@ -1154,6 +1187,7 @@ func run() int {
 	}{{"transaction", nTrxFields, trxFields}, {"vertex", nFields, vtxFields}} {
 		n := pow3(len(jb.fields))
 		base := seqBase
+		t0 := time.Now()
 		var skipped atomic.Uint64
 		st, done := parallel(nw, n, 2048, deadline, func(w *worker, lo, hi uint64) {
 			for i := lo; i < hi; i++ {
@@ -1162,7 +1196,7 @@ func run() int {
 					skipped.Add(1)
 					continue
 				}
-				m := &meta{kind: jb.kind, phase: "product", seq: base + i, sp: &sp, n: jb.n}
+				m := &meta{kind: jb.kind, phase: "product", seq: base + i, sp: &sp, n: jb.n, noDigest: jb.kind == "vertex"}
 				if jb.kind == "vertex" {
 					w.evalVertex(buildVertex(&sp), m)
 				} else {
@@ -1177,7 +1211,7 @@ func run() int {
 			names = append(names, fieldName[f])
 		}
 		productInfo[jb.kind] = map[string]any{"fields": names, "k": len(jb.fields), "size": n, "completed": done,
-			"already_covered_by_pairs": skipped.Load()}
+			"already_covered_by_pairs": skipped.Load(), "wall_s": time.Since(t0).Seconds()}
 		if done != n {
 			exhaustive = false
 		}
@@ -1264,12 +1298,12 @@ func run() int {
 		"every field has a declared alphabet (alphabet_sizes_incl_nominal; index 0 = nominal, for hash/signature fields nominal = really signed by the cast actor that owns the address). "+
 		"Enumerated, each spec exactly once: (1) the all-nominal object, (2) every single-field sweep, (3) every pair of fields over the FULL alphabets "+
 		"(no restriction for the 65535/65536 lengths: all pairs including big x big are run), (4) the full product over the 3-value reduction per field "+
-		"(reduced_alphabets; transactions 3^10; vertices: quick 3^12 = 7 vertex fields x {Subject, Data, Transaction.CreatedAt, Currency, ReceiverSignature}, thorough 3^17 = all fields), "+
+		"(reduced_alphabets; transactions 3^10; vertices: quick 3^14 = 7 vertex fields x {Subject, Data, Transaction.CreatedAt, Currency, Transaction.Hash, IssuerSignature, ReceiverSignature}, thorough 3^17 = all fields; the field list actually used is in reduced_product), "+
 		"minus specs with <=2 non-nominal fields which are already in (3); plus signed fixtures from world.MakeTx/CounterSign + accountant.NewVertex; "+
 		"plus the complete products for spice.Melange (14x14) and accountant.Balance (time x address/length x 14 x 14). "+
 		"Each object goes through each path that applies to its kind (vertex: vertex->proto->wire->vertex, vertex msgpack; transaction: trx->proto->wire->trx, trx msgpack; spice; balance) = one evaluation. "+
 		"Oracle per round trip: every signed field equal (times by UnixNano, location/monotonic ignored; nil vs empty slices equal only if the verification verdict is equal, which is then computed), "+
-		"GetMessage()/digest-input bytes equal, and for phases (1)-(3) and fixtures the verify verdict equal; msgpack/wire errors and panics are violations; "+
+		"GetMessage()/digest-input bytes equal (all objects except the vertex reduced product, where they are implied by the compared fields), and for phases (1)-(3) and fixtures the verify verdict equal; msgpack/wire errors and panics are violations; "+
 		"refusals by the transformers' documented validation are counted (documented_refusals). "+
 		"distinct_nontrivial = number of distinct objects (distinct by construction: distinct spec vectors over duplicate-free alphabets, counted by the workers) "+
 		"for which EVERY applicable path completed and compared all fields (none refused, none failed); objects refused on trx->proto are therefore not counted although their msgpack path was compared.")
